@@ -509,6 +509,12 @@ def run_G(pid, tier, seed):
                                  [d.exec_nodes["n%d" % i] for i in outs_c])
             except ValueError:
                 comp = None
+            except BaseException as e:  # noqa: BLE001
+                # a setup node fed by a compose input is refused at build (TawaziUsageError): a legitimate refusal
+                if type(e).__name__ != "TawaziUsageError":
+                    raise
+                stats["compose_refused"] = stats.get("compose_refused", 0) + 1
+                comp = None
             if comp is not None:
                 stats["composed_tables"] = stats.get("composed_tables", 0) + 1
                 cids, cpos, cpreds, cprio, cdebug, _ok = G.extract(comp, toposort=True)
